@@ -304,6 +304,7 @@ func (r *Reader) readFiles(roots []string, opts walkerOpts, ignores []string) bo
 		if path != "." {
 			isDir := de.IsDir()
 			if isDir || opts.follow && isSymlinkToDir(path, de) {
+				isDir = true
 				base := filepath.Base(path)
 				if !opts.hidden && base[0] == '.' && base != ".." {
 					return filepath.SkipDir
